@@ -612,7 +612,6 @@ def apply_edit(slot, e):
             obj["lon"] = ("site", lon + 1.5)
         else:
             obj["lon"].values[...] = lon + 0.75       # in-place write into the coordinate's values
-        obj.coords.update({"lon": obj["lon"], "lat": obj["lat"]}) if "lon" not in obj.coords else None
     elif k == "add_var":
         # a statistic stored next to the spectra under its own name (what users do before writing files)
         obj[e["name"]] = getattr(obj["efth"].spec, e["name"])()
